@@ -231,7 +231,8 @@ impl C06 {
         // that pool's oldest checkpoint or outside its newest 100 (where pruning may already have
         // removed it).
         let retention = if h.cfg.nu6_3 { Some(h.cfg.retention.unwrap_or(144)) } else { None };
-        let is_boundary = |x: u32| retention.map_or(false, |n| x >= 100_000 && x % n == 0);
+        let activation = h.cfg.nu6_3_activation().unwrap_or(u32::MAX);
+        let is_boundary = |x: u32| retention.map_or(false, |n| x >= activation && x % n == 0);
         if self.prev_ids.len() == 3 {
             let mut newly: BTreeSet<u32> = BTreeSet::new();
             for (cur, prev) in id_sets.iter().zip(&self.prev_ids) {
@@ -420,6 +421,12 @@ impl Monitor for C06 {
         if h.cfg.shard_start {
             r.count("histories_starting_at_shard_boundary", 1);
         }
+        if h.cfg.nu6_3_late > 0 {
+            r.count("histories_with_activation_inside_chain", 1);
+        }
+        if h.cfg.late_pool.is_some() {
+            r.count("histories_with_late_starting_pool", 1);
+        }
         r.count("rewinds_exposing_F1", h.rewinds_f1 as u64);
         r.count("f1_scan_failures", h.f1_scan_failures);
         if h.aborted.is_some() {
@@ -456,16 +463,19 @@ fn main() {
             continue;
         }
         let mut rng = vh_common::rng(args.shard_seed(), 600 + i);
+        // shapes rotate over shards AND history index, so that a quick run (1-3 histories per shard)
+        // still sees every shape
+        let j = i + args.shard + args.seed;
         let mut cfg = HistCfg::random(&mut rng, thorough);
         // C06 wants the retention clause exercised often
-        if i % 2 == 0 {
+        if j % 2 == 0 {
             cfg.nu6_3 = true;
             if cfg.retention.is_none() {
                 cfg.retention = Some(5 + (i as u32 * 7) % 33);
             }
         }
         // dense blocks in some histories: > 1024 commitments per batch -> parallel subtree chunks
-        if i % 4 == 3 {
+        if j % 4 == 3 {
             cfg.dense_outputs = 40;
             cfg.pools.truncate(1);
             cfg.nu6_3 = cfg.nu6_3 || cfg.pools.contains(&Pool::Ironwood);
@@ -474,10 +484,27 @@ fn main() {
             cfg.steps = cfg.steps.min(14);
         }
         // histories that start next to a 2^16 subtree boundary
-        if i % 4 == 1 {
+        if j % 4 == 1 {
             cfg.shard_start = true;
         }
-        vh_wallet::hooks::install(if i % 2 == 0 { args.shard_seed() | 1 } else { 0 });
+        // histories in which NU6.3 activates INSIDE the scanned chain (retention floor inside a
+        // batch) and/or one pool receives its first commitment late (rewinds to an empty tree)
+        if j % 4 == 2 {
+            cfg.nu6_3 = true;
+            cfg.nu6_3_late = 3 + (i as u32 * 5) % 40;
+            if cfg.retention.is_none() {
+                cfg.retention = Some(5 + (i as u32 * 3) % 20);
+            }
+            cfg.max_batch = cfg.max_batch.max(30);
+        }
+        if j % 8 == 6 || j % 8 == 3 {
+            let lp = *cfg.pools.last().unwrap();
+            if lp != Pool::Ironwood || cfg.nu6_3 {
+                cfg.late_pool = Some((lp, 8 + (i as u32 * 7) % 30));
+                cfg.max_rewinds = cfg.max_rewinds.max(2);
+            }
+        }
+        vh_wallet::hooks::install(if j % 2 == 0 { args.shard_seed() | 1 } else { 0 });
         let _ = vh_wallet::hooks::take();
         let mut mon = C06 { every: 1, ..Default::default() };
         let res = guard(|| {
